@@ -23,6 +23,21 @@ def mapM1 (f : Int → Except Err Int) : List Int → Except Err (List Int)
     pure (x :: xs)
   | [] => .ok []
 
+/-- zip three aligned lists through a fallible function, left to right. -/
+def mapM3 (f : Int → Int → Int → Except Err Int) : List Int → List Int → List Int → Except Err (List Int)
+  | a :: as, b :: bs, c :: cs => do
+    let x ← f a b c
+    let xs ← mapM3 f as bs cs
+    pure (x :: xs)
+  | _, _, _ => .ok []
+
+def mapM2 (f : Int → Int → Except Err Int) : List Int → List Int → Except Err (List Int)
+  | a :: as, b :: bs => do
+    let x ← f a b
+    let xs ← mapM2 f as bs
+    pure (x :: xs)
+  | _, _ => .ok []
+
 /-! ### exit -/
 
 /-- one asset of the pro-rata loop of `CalcExitPool`: ⌊ratio · balance⌋, skipped when ≤ 0,
@@ -43,12 +58,18 @@ def calcExit (bals : List Int) (S x : Int) : Except Err (List Int) :=
     let ratio ← quoIntC (x * P) S
     mapM1 (exitOne ratio) bals
 
-/-- `Pool.ExitPool` = `CalcExitPool` + `processExitPool`: returns (payouts, new balances, new total shares).
-`UpdatePoolAssetBalances` only rewrites the balances that stay positive (a balance that would become
-zero is dropped by `sdk.Coins.Sub` and therefore left unchanged — not reachable pro rata). -/
+/-- one asset of `processExitPool`: the book balance minus the payout, for every coin actually paid.
+`sdk.NewCoin` panics on a negative remainder; `UpdatePoolAssetBalance` rejects a zero one. -/
+def exitUpdateOne (b o : Int) : Except Err Int :=
+  if o = 0 then .ok b
+  else if b - o < 0 then .error .panicNegCoin
+  else if b - o = 0 then .error .badArgs
+  else .ok (b - o)
+
+/-- `Pool.ExitPool` = `CalcExitPool` + `processExitPool`: returns (payouts, new balances, new total shares). -/
 def exitPool (bals : List Int) (S x : Int) : Except Err (List Int × List Int × Int) := do
   let outs ← calcExit bals S x
-  let newBals := List.zipWith (fun b o => if b - o > 0 then b - o else b) bals outs
+  let newBals ← mapM2 exitUpdateOne bals outs
   if S - x < 0 then .error .panicNegCoin else pure (outs, newBals, S - x)
 
 /-- keeper `ExitPool` guards in front of `Pool.ExitPool`. -/
@@ -69,21 +90,6 @@ def remOne (minRatio : Int) (b dep ratio : Int) : Except Err Int :=
     let m ← mulIntC minRatio b
     let used ← ceilC m
     pure (dep - used)
-
-/-- zip three aligned lists through a fallible function, left to right. -/
-def mapM3 (f : Int → Int → Int → Except Err Int) : List Int → List Int → List Int → Except Err (List Int)
-  | a :: as, b :: bs, c :: cs => do
-    let x ← f a b c
-    let xs ← mapM3 f as bs cs
-    pure (x :: xs)
-  | _, _, _ => .ok []
-
-def mapM2 (f : Int → Int → Except Err Int) : List Int → List Int → Except Err (List Int)
-  | a :: as, b :: bs => do
-    let x ← f a b
-    let xs ← mapM2 f as bs
-    pure (x :: xs)
-  | _, _ => .ok []
 
 /-- the `remCoins` loop of `MaximalExactRatioJoin` (skipped when all share ratios are equal). -/
 def remsOf (minR maxR : Int) (bals deps ratios : List Int) : Except Err (List Int) :=
